@@ -75,6 +75,7 @@ pub fn positions(n: usize, rng: &mut Rng, budget: usize) -> Vec<usize> {
         }
     }
     v.extend([n + 2, 1usize << 32, 1usize << 43, usize::MAX - 1, usize::MAX]);
+    v.extend(crate::util::wrap_positions(n));
     v.sort_unstable();
     v.dedup();
     v
@@ -290,6 +291,10 @@ pub fn check_tree(
             let mut v: Vec<usize> = vec![0, n.saturating_sub(1), n, n + 1, usize::MAX];
             for _ in 0..o.budget {
                 v.push(pos[rng.below_usize(pos.len())]);
+            }
+            let w = crate::util::wrap_positions(n);
+            for _ in 0..3 {
+                v.push(w[rng.below_usize(w.len())]);
             }
             // positions right at and after an occurrence of c
             if let Some(pl) = m.pos.get(&c) {
